@@ -433,3 +433,143 @@ Proof.
   intros Ho Hk E. destruct (Forall_Good_theory G (mu_output_good P G Ho Hk E)) as [W K].
   split; [exact W|]. split; [exact K|]. apply text_theory; assumption.
 Qed.
+
+(* ------------------------------------------------------------------ the premise is exact for natural *)
+Lemma kwi_atom p ts : kwi_atomic (AAtom p ts) = kw_prefixed p.
+Proof. unfold kwi_atomic. cbn [print_atomic]. unfold print_atom. destruct ts; reflexivity. Qed.
+
+Lemma kwi_fold_and xs : forall acc,
+  keyword_ident (fold_left (fun acc e => FBin CAnd acc e) xs acc) = keyword_ident acc || existsb keyword_ident xs.
+Proof.
+  induction xs as [|x xs IH]; intros acc; cbn [fold_left existsb].
+  - rewrite orb_false_r. reflexivity.
+  - rewrite IH. cbn [keyword_ident]. rewrite orb_assoc. reflexivity.
+Qed.
+Lemma kwi_conjoin l : keyword_ident (conjoin l) = existsb keyword_ident l.
+Proof. unfold conjoin, reduce_bin. destruct l as [|x xs]; [reflexivity|]. rewrite kwi_fold_and. reflexivity. Qed.
+Lemma kwi_quantify q vs f : keyword_ident (quantify f q vs) = keyword_ident f.
+Proof. destruct vs; reflexivity. Qed.
+Lemma kwi_universal_closure f : keyword_ident (universal_closure f) = keyword_ident f.
+Proof. apply kwi_quantify. Qed.
+
+Lemma collect_options_in {A B} (f : A -> option B) : forall l ys a,
+  collect_options f l = Some ys -> In a l -> exists b, f a = Some b /\ In b ys.
+Proof.
+  induction l as [|x l IH]; intros ys a E Ha; [destruct Ha|]. cbn [collect_options] in E.
+  destruct (f x) as [y|] eqn:Ey; [|discriminate].
+  destruct (collect_options f l) as [ys'|] eqn:El; [|discriminate]. injection E as <-.
+  destruct Ha as [<-|Ha]; [exists y; split; [exact Ey|left; reflexivity]|].
+  destruct (IH ys' a eq_refl Ha) as (b & Hb & Hin). exists b. split; [exact Hb|right; exact Hin].
+Qed.
+
+Lemma natural_comparison_kw c iv f : kwfree_cmp c = false -> natural_comparison c iv = Some f ->
+  keyword_ident f = true.
+Proof.
+  unfold kwfree_cmp. intros Hk. apply orb_false_iff in Hk. destruct Hk as [Hs Hi].
+  apply negb_false_iff in Hs. unfold natural_comparison.
+  destruct (clhs c) as [[|z|s|]|x|o a|o l r]; cbn [kw_symbol] in Hs; try discriminate.
+  unfold p2f at 1. cbn [is_term_regular_of_first_kind negb].
+  assert (Ei : (match arel_to_rel (crel c) with REq => true | _ => false end)
+               && is_term_regular_of_second_kind (crhs c) = is_interval_membership c)
+    by (unfold is_interval_membership; destruct (crel c); reflexivity).
+  rewrite Ei, Hi. destruct (p2f (crhs c) iv) as [rhs|]; [|discriminate]. intros [= <-].
+  cbn [keyword_ident]. unfold kwi_atomic. cbn [print_atomic print_gterm print_sterm app lead_ident]. exact Hs.
+Qed.
+
+Lemma natural_b_literal_kw l iv f : kwfree_atom (latom l) = false -> natural_b_literal l iv = Some f ->
+  keyword_ident f = true.
+Proof.
+  unfold kwfree_atom. intros Hk. apply negb_false_iff in Hk. unfold natural_b_literal, natural_b_atom.
+  destruct (collect_options _ (aterms (latom l))) as [ts|]; [|discriminate]. intros [= <-].
+  destruct (lsign l); cbn [keyword_ident]; rewrite kwi_atom; exact Hk.
+Qed.
+
+Lemma natural_body_kw b iv f : forallb kwfront_free_bformula b = false -> natural_body b iv = Some f ->
+  keyword_ident f = true.
+Proof.
+  intros Hk. unfold natural_body. destruct (collect_options _ b) as [fs|] eqn:E; [|discriminate].
+  intros [= <-]. rewrite kwi_conjoin. apply existsb_exists.
+  assert (Hx : exists x, In x b /\ kwfront_free_bformula x = false).
+  { clear E. induction b as [|x b IH]; [discriminate|]. cbn [forallb] in Hk.
+    apply andb_false_iff in Hk. destruct Hk as [Hk|Hk].
+    - exists x. split; [left; reflexivity|exact Hk].
+    - destruct (IH Hk) as (y & Hy & Hky). exists y. split; [right; exact Hy|exact Hky]. }
+  destruct Hx as (x & Hx & Hkx). destruct (collect_options_in _ _ _ _ E Hx) as (g & Hg & Hin).
+  exists g. split; [exact Hin|]. destruct x as [l|c]; cbn [kwfront_free_bformula] in Hkx.
+  - eapply natural_b_literal_kw; eassumption.
+  - eapply natural_comparison_kw; eassumption.
+Qed.
+
+Lemma natural_head_gen_kw (wrap : formula -> formula) a iv f :
+  (forall g, keyword_ident g = true -> keyword_ident (wrap g) = true) ->
+  kwfree_atom a = false ->
+  nbind (unwrap (fresh_variables_for_head_atom a))
+    (fun fresh_vars =>
+       nbind (natural_head_atom a iv fresh_vars)
+         (fun head_atom =>
+            let conclusion := wrap head_atom in
+            match fresh_vars with
+            | [] => NOk conclusion
+            | _ => nbind (natural_head_interval a iv fresh_vars)
+                     (fun conditions => NOk (FQ QForall (int_binders fresh_vars) (FBin CImp conditions conclusion)))
+            end)) = NOk f -> keyword_ident f = true.
+Proof.
+  intros Hw Ka. unfold kwfree_atom in Ka. apply negb_false_iff in Ka.
+  destruct (fresh_variables_for_head_atom a) as [fresh|]; cbn [unwrap nbind]; [|discriminate].
+  unfold natural_head_atom.
+  destruct (natural_head_atom_terms (aterms a) iv fresh) as [gs| |]; cbn [nbind]; try discriminate.
+  assert (Kh : keyword_ident (wrap (FAtomic (AAtom (apred a) gs))) = true)
+    by (apply Hw; cbn [keyword_ident]; rewrite kwi_atom; exact Ka).
+  destruct fresh as [|v fresh']; [intros [= <-]; exact Kh|].
+  destruct (natural_head_interval a iv (v :: fresh')) as [cnd| |]; cbn [nbind]; try discriminate.
+  intros [= <-]. cbn [keyword_ident]. rewrite Kh. apply orb_true_r.
+Qed.
+
+Lemma natural_head_kw h iv f : kwfree_head h = false -> natural_head h iv = NOk f -> keyword_ident f = true.
+Proof.
+  destruct h as [a|a|]; cbn [kwfree_head natural_head]; intros Hk; [| |discriminate].
+  - unfold natural_basic_head. apply (natural_head_gen_kw (fun g => g)); auto.
+  - unfold natural_choice_head. apply (natural_head_gen_kw (fun g => FBin COr g (FNot g))); auto.
+    intros g Hg. cbn [keyword_ident]. rewrite Hg. reflexivity.
+Qed.
+
+Lemma natural_rule_kw r f : kwfront_free_rule r = false -> natural_rule r = NOk f -> keyword_ident f = true.
+Proof.
+  unfold kwfront_free_rule, natural_rule. intros Hk.
+  destruct (natural_head (rhead r) (int_variables r)) as [h| |] eqn:Eh; cbn [nbind]; try discriminate.
+  destruct (natural_body (rbody r) (int_variables r)) as [b|] eqn:Eb; cbn [of_option nbind]; [|discriminate].
+  intros [= <-]. rewrite kwi_universal_closure. cbn [keyword_ident].
+  apply andb_false_iff in Hk. destruct Hk as [Hk|Hk].
+  - rewrite (natural_head_kw _ _ _ Hk Eh). apply orb_true_r.
+  - rewrite (natural_body_kw _ _ _ Hk Eb). reflexivity.
+Qed.
+
+Theorem natural_output_F7b P : forall G, natural P = NOk G -> no_keyword_front P = false ->
+  exists f, In f G /\ keyword_ident f = true.
+Proof.
+  unfold no_keyword_front. induction P as [|r P IH]; intros G E Hk; [discriminate|].
+  cbn [natural] in E. cbn [forallb] in Hk.
+  destruct (natural_rule r) as [f| |] eqn:Er; cbn [nbind] in E; try discriminate.
+  destruct (natural P) as [fs| |] eqn:EP; cbn [nbind] in E; try discriminate. injection E as <-.
+  apply andb_false_iff in Hk. destruct Hk as [Hk|Hk].
+  - exists f. split; [left; reflexivity|eapply natural_rule_kw; eassumption].
+  - destruct (IH fs eq_refl Hk) as (g & Hg & Kg). exists g. split; [right; exact Hg|exact Kg].
+Qed.
+
+Lemma known_class_theory_in (G : theory) f : In f G -> keyword_ident f = true -> known_class_theory G <> None.
+Proof.
+  unfold known_class_theory. induction G as [|g G IH]; intros Hin K; [destruct Hin|].
+  cbn [first_some]. destruct (known_class g) eqn:Kg; [discriminate|].
+  destruct Hin as [->|Hin]; [|apply IH; assumption].
+  unfold known_class in Kg. rewrite K in Kg. discriminate.
+Qed.
+
+(* outside the premise the output IS in class F7b: the premise of [natural_output_reparses] is exact *)
+Theorem natural_output_F7b_iff P G : fol_names_ok P = true -> natural P = NOk G ->
+  (known_class_theory G = None <-> no_keyword_front P = true).
+Proof.
+  intros Ho E. split.
+  - intros K. destruct (no_keyword_front P) eqn:Hk; [reflexivity|]. exfalso.
+    destruct (natural_output_F7b P G E Hk) as (f & Hf & Kf). exact (known_class_theory_in G f Hf Kf K).
+  - intros Hk. exact (proj1 (proj2 (natural_output_reparses P G Ho Hk E))).
+Qed.
